@@ -1,3 +1,44 @@
-Require Import Base Opcode Tables Ops Tree Opt Flat Run.
-Example placeholder_C03 : True. Proof. exact I. Qed.
-Print Assumptions placeholder_C03.
+(* C03 — Skipped and/or operands and untaken if-branches are never evaluated.
+   Only statements; proofs in Proofs/EvalTop.v, SemFacts.v. *)
+Require Import Base Opcode Tables Ops Tree Opt Flat Run CompFacts EvalDefs EvalTop SemFacts.
+Open Scope Z_scope.
+
+(* the observation stream of the compiled program (every VariableFetcher.Get and every operator application with
+   its arguments and result, in order, including the failing one) is exactly the effect trace of the left-to-right
+   short-circuit semantics of the optimised tree t' — for every tree, so in particular for optimize cfg t under
+   every option subset and cost map *)
+Theorem C03_effects_are_sem : forall fetch custom t',
+  fst (eval fetch custom (compile t')) = map e2o (fst (sem fetch custom t')).
+Proof. intros. rewrite run_compile_correct. reflexivity. Qed.
+
+(* what `sem` evaluates: nothing after a deciding operand, nothing after a failing one, exactly one branch *)
+Theorem C03_deciding_operand_stops : forall fetch custom name d c cs' acc tr,
+  op_kind name = Some d -> sem fetch custom c = (tr, Ok (VBool d)) ->
+  sem_args fetch custom name (c :: cs') acc = (tr, Ok (VBool d)).
+Proof. exact deciding_operand_stops. Qed.
+Theorem C03_failing_operand_stops : forall fetch custom name c cs' acc tr e,
+  sem fetch custom c = (tr, Err e) -> sem_args fetch custom name (c :: cs') acc = (tr, Err e).
+Proof. exact failing_operand_stops. Qed.
+Theorem C03_if_true : forall fetch custom c t f tr, sem fetch custom c = (tr, Ok (VBool true)) ->
+  sem fetch custom (TIf c t f) = pre tr (sem fetch custom t).
+Proof. exact if_true_branch. Qed.
+Theorem C03_if_false : forall fetch custom c t f tr, sem fetch custom c = (tr, Ok (VBool false)) ->
+  sem fetch custom (TIf c t f) = pre tr (sem fetch custom f).
+Proof. exact if_false_branch. Qed.
+
+(* the only liberty: a fast operator fetches both leaves (in order) before it is applied *)
+Theorem C03_fast_liberty : forall fetch custom name a b, fast_shape true [a; b] = true ->
+  sem fetch custom (TOp name true [a; b]) = sem_fast fetch custom name a b.
+Proof. exact fast_meaning. Qed.
+
+(* non-vacuity: the failing variable behind the deciding operand is not fetched; the untaken branch neither *)
+Definition ex_fetch (n : str) (k : Z) : res value :=
+  if str_eqb n (ss "t") then Ok (VBool true) else if str_eqb n (ss "f") then Ok (VBool false) else Err (EUser 7).
+Definition ex_custom (n : str) (a : list value) : res value := Ok (VInt 42).
+Example C03_ex :
+  eval ex_fetch ex_custom (compile (TOp (ss "or") false
+     [TVar (ss "f") 1; TIf (TVar (ss "t") 2) (TVar (ss "t") 2) (TVar (ss "boom") 3); TVar (ss "boom") 3; TOp (ss "c") false []]))
+  = ([OGet (ss "f") 1; OGet (ss "t") 2; OGet (ss "t") 2], MVal (VBool true)).
+Proof. vm_compute. reflexivity. Qed.
+
+Print Assumptions C03_effects_are_sem.
